@@ -138,6 +138,7 @@ func vAlnum(s string) bool {
 type vParts struct {
 	method, path, query, header string
 	body                        []byte
+	host, scheme                string // "" = api.example.com over http
 }
 
 func vPartsOf(label string, n int) vParts {
@@ -157,6 +158,47 @@ func (p vParts) request() *http.Request {
 		Body: &vReqBody{data: p.body}, ContentLength: int64(len(p.body))}
 }
 
+// clientRequest: the request as a client builds it (http.NewRequest with an absolute URL: the
+// authority is in the URL, Request.Host is empty) before signing it.
+func (p vParts) clientRequest() *http.Request {
+	u := &url.URL{Scheme: p.scheme, Host: p.host, Path: p.path, RawQuery: "q=" + p.query}
+	return &http.Request{Method: p.method, URL: u, Header: http.Header{"X-Tenant": []string{p.header}},
+		Body: &vReqBody{data: p.body}, ContentLength: int64(len(p.body))}
+}
+
+// serverRequest: the request as the HTTP server hands it over (http.ReadRequest): origin-form
+// target, so no scheme and no authority in the URL, the Host header in Request.Host.
+func (p vParts) serverRequest() *http.Request {
+	u := &url.URL{Path: p.path, RawQuery: "q=" + p.query}
+	return &http.Request{Method: p.method, URL: u, Host: p.host, Header: http.Header{"X-Tenant": []string{p.header}},
+		Body: &vReqBody{data: p.body}, ContentLength: int64(len(p.body))}
+}
+
+// vWireHost: the Host header net/http writes for a client request (Request.Host, else URL.Host)
+func vWireHost(r *http.Request) string {
+	if r.Host != "" {
+		return r.Host
+	}
+	return r.URL.Host
+}
+
+// vDefaultPortStripped: the authority without the port when that is the scheme's default
+func vDefaultPortStripped(host, scheme string) string {
+	if scheme == "http" && vHasSuffixS(host, ":80") {
+		return host[:len(host)-3]
+	}
+	if scheme == "https" && vHasSuffixS(host, ":443") {
+		return host[:len(host)-4]
+	}
+	return host
+}
+
+func vHasSuffixS(s, suf string) bool {
+	return len(s) >= len(suf) && s[len(s)-len(suf):] == suf
+}
+
+var vHosts = []string{"api.example.com", "api.example.com:80", "api.example.com:443", "api.example.com:8080", "b.example.com"}
+
 func vSameBytes(a, b []byte) bool {
 	if len(a) != len(b) {
 		return false
@@ -168,6 +210,45 @@ func vSameBytes(a, b []byte) bool {
 		}
 	}
 	return same
+}
+
+// verifC06_SignVerifyHost: the Host as a covered part, for requests as they travel: the client
+// builds the request from an absolute URL (scheme http or https, authority with or without a
+// port, possibly the scheme's default port written out), signs it and sends it; the server sees
+// an origin-form request (no scheme) with the Host header the client wrote. Unchanged, the
+// request verifies; with another Host it does not - Hosts that differ only by the signing
+// scheme's default port are left open (the signer treats them as one authority by design).
+func verifC06_SignVerifyHost() {
+	signed := vParts{method: "POST", path: "/a", query: "x", header: "t", body: []byte{7}}
+	signed.host = vHosts[verifChoose("signed.host", 4)]
+	signed.scheme = []string{"http", "https"}[verifChoose("signed.scheme", 2)]
+	r1 := signed.clientRequest()
+	client := New().SetCredential("key1", "secret1")
+	s := CreateFromSpec(&Spec{AccessKeys: map[string]string{"key1": "secret1"}, TTL: "1m"})
+	verifAssert(client.NewContext(vSignTime, "scope1").Sign(r1) == nil, "signing-succeeds")
+	wireHost := vWireHost(r1)
+	verifAssert(vDefaultPortStripped(wireHost, signed.scheme) == vDefaultPortStripped(signed.host, signed.scheme), "signing-keeps-the-authority")
+
+	sent := signed
+	sent.host = wireHost
+	if verifBool("hostChangedOnTheWay") {
+		sent.host = vHosts[verifChoose("sent.host", len(vHosts))]
+	}
+	r2 := sent.serverRequest()
+	r2.Header.Set("Authorization", r1.Header.Get("Authorization"))
+	r2.Header.Set("X-Me-Date", r1.Header.Get("X-Me-Date"))
+	vVerifyAge = 0
+	err := s.Verify(r2)
+	if sent.host == wireHost {
+		verifAssert(err == nil, "request-sent-as-signed-is-accepted")
+		verifCover("verified")
+		if signed.host != vDefaultPortStripped(signed.host, signed.scheme) {
+			verifCover("default-port-written-out")
+		}
+	} else if vDefaultPortStripped(sent.host, signed.scheme) != vDefaultPortStripped(wireHost, signed.scheme) {
+		verifAssert(err != nil, "changed-host-is-rejected")
+		verifCover("changed-host-rejected")
+	}
 }
 
 // verifC06_SignVerify: a request signed by a holder of the access key verifies; a request that
